@@ -4,6 +4,7 @@ Driver for the density / elliptic solver / quasi-neutrality models (C14, C15, C1
 -/
 import PygyroVerif.DriverUtil
 import PygyroVerif.Model.Density
+import PygyroVerif.Model.Poisson
 import Mathlib.Algebra.Order.Field.Rat
 
 open Lean PygyroVerif PygyroVerif.DriverUtil
@@ -44,10 +45,152 @@ def handleDensity (j : Json) : R Json := do
     jList (fun i => jList (fun jj => jList (fun k => jRat (f i jj k)) (List.range nt)) (List.range nz)) (List.range nr)
   pure <| obj [("rho", cube val), ("scale", cube sc)]
 
+/-! ### C14 / C15 -/
+open PygyroVerif.Poisson
+
+def tab2 (l : List (List Rat)) : ℕ → ℕ → Rat := fn2 l
+def abs2 (f : ℕ → ℕ → Rat) : ℕ → ℕ → Rat := fun a b => |f a b|
+
+/-- materialise a function of three indices (sharing: each value is computed once) -/
+def memo3 (n1 n2 n3 : ℕ) (f : ℕ → ℕ → ℕ → Rat) : ℕ → ℕ → ℕ → Rat :=
+  let a := Array.ofFn (n := n1) (fun i => Array.ofFn (n := n2) (fun j => Array.ofFn (n := n3) (fun k => f i.1 j.1 k.1)))
+  fun i j k => (((a.getD i #[]).getD j #[]).getD k 0)
+
+def memo2 (n1 n2 : ℕ) (f : ℕ → ℕ → Rat) : ℕ → ℕ → Rat :=
+  let a := Array.ofFn (n := n1) (fun i => Array.ofFn (n := n2) (fun j => f i.1 j.1))
+  fun i j => ((a.getD i #[]).getD j 0)
+
+/-- `Poisson.assemble` with the rows of the diagonal storage computed once each
+    (same primitives `symRow`/`fullRow`/`aliasIdx`/`diagsEntry`, composed exactly as in `Poisson.assemble`) -/
+def assembleShared (d nb : ℕ) (Q : Quad Rat) (co : Coefs Rat) (P dP : ℕ → ℕ → ℕ → Rat) : Assembled Rat :=
+  let sym (term : ℕ → ℕ → Rat) : ℕ → ℕ → Rat :=
+    let rows := memo2 nb (d + 1) (fun i => symRow d nb term i)
+    memo2 nb nb (diagsEntry d (fun li i => rows i (aliasIdx d li)))
+  let full (up lo : ℕ → ℕ → Rat) : ℕ → ℕ → Rat :=
+    let rows := memo2 nb (2 * d + 1) (fun i => fullRow d nb up lo i)
+    memo2 nb nb (diagsEntry d (fun li i => rows i li))
+  { mass := sym (massTerm d Q co P), k2 := sym (k2Term d Q co P), phiPsi := sym (phiPsiTerm d Q co P),
+    dPhidPsi := full (dPhidPsiUp d Q co P dP) (dPhidPsiLo d Q co P dP),
+    dPhiPsi := full (dPhiPsiUp d Q co P dP) (dPhiPsiLo d Q co P dP) }
+
+def jMat (n m : ℕ) (f : ℕ → ℕ → Rat) : Json :=
+  jList (fun a => jList (fun b => jRat (f a b)) (List.range m)) (List.range n)
+def jVec (n : ℕ) (f : ℕ → Rat) : Json := jList (fun a => jRat (f a)) (List.range n)
+def jPair (p : ℕ × ℕ) : Json := jNats [p.1, p.2]
+
+def cfgOf (j : Json) (nb : ℕ) : R BCConfig := do
+  let N ← fNat j "N"; let l ← fIntList j "lneu"; let u ← fIntList j "uneu"
+  pure { nb := nb, N := N, lNeu := l, uNeu := u }
+
+/-- integer / decision part only -/
+def handleSlices (j : Json) : R Json := do
+  let nb ← fNat j "nb"
+  let c ← cfgOf j nb
+  let cnull ← fBool j "cnull"
+  let modes := (List.range c.N).map (fun I => obj [
+    ("m", jInt (mVal c.N I)), ("m2", jInt (m2Int c.N I)),
+    ("lneu", toJson (lNeumann c I)), ("uneu", toJson (uNeumann c I)),
+    ("coeff_range", jPair (coeffRange c I)), ("stiff_range", jPair (stiffRange c I)), ("size", jNat (modeSize c I))])
+  pure <| obj [("start_range", jNat (startRange c)), ("end_range", jNat (endRange c)), ("n_unknowns", jNat (nUnknowns c)),
+    ("poorly", jInts (poorlyDefined c)), ("refuses", toJson (refuses c cnull)), ("modes", Json.arr modes.toArray)]
+
+def handleSolver (j : Json) : R Json := do
+  let kn ← fRatList j "knots"; let d ← fNat j "degree"; let ncells ← fNat j "ncells"
+  let nb := ncells + d
+  let w ← fRatList j "weights"; let mult ← fRat j "mult"
+  let xs ← rat2 (← field j "evalpts")
+  let nq := w.length
+  let A ← rat2 (← field j "A"); let B ← rat2 (← field j "B"); let C ← rat2 (← field j "C")
+  let D ← rat2 (← field j "D"); let E ← rat2 (← field j "E")
+  let t := fn1 kn; let nk := kn.length
+  let X := tab2 xs
+  -- basis tables through the evaluation-kernel model
+  let ok := (List.range nb).all (fun jj => (List.range ncells).all (fun c => (List.range nq).all (fun q =>
+    (unitSplineVal t nk d jj (X c q) false).isSome)))
+  if !ok then throw "span search failed"
+  let P := memo3 nb ncells nq (fun jj c q => (unitSplineVal t nk d jj (X c q) false).getD 0)
+  let dP := memo3 nb ncells nq (fun jj c q => (unitSplineVal t nk d jj (X c q) true).getD 0)
+  let Q : Quad Rat := { ncells := ncells, nq := nq, w := fn1 w, mult := mult, x := X }
+  let co : Coefs Rat := { A := tab2 A, B := tab2 B, C := tab2 C, D := tab2 D, E := tab2 E }
+  let asm := assembleShared d nb Q co P dP
+  -- Σ|terms| of every entry: the same assembly on absolute values (A ↦ -|A| because the model negates A)
+  let Qa : Quad Rat := { Q with w := fun q => |Q.w q|, mult := |mult|, x := abs2 X }
+  let coa : Coefs Rat := { A := fun c q => -|co.A c q|, B := abs2 co.B, C := abs2 co.C, D := abs2 co.D, E := abs2 co.E }
+  let Pa := memo3 nb ncells nq (fun jj c q => |P jj c q|)
+  let dPa := memo3 nb ncells nq (fun jj c q => |dP jj c q|)
+  let asa := assembleShared d nb Qa coa Pa dPa
+  let mats (a : Assembled Rat) : Json := obj [("mass", jMat nb nb a.mass), ("k2", jMat nb nb a.k2),
+    ("phipsi", jMat nb nb a.phiPsi), ("dphidpsi", jMat nb nb a.dPhidPsi), ("dphipsi", jMat nb nb a.dPhiPsi)]
+  let cnull := funcIsNull co.C ncells nq
+  let mut out : List (String × Json) := [("matrices", mats asm), ("abs", mats asa), ("cnull", toJson cnull)]
+  match j.getObjVal? "N" with
+  | .error _ => pure (obj out)
+  | .ok _ =>
+    let qn := (j.getObjVal? "electrons").toOption
+    let c ← match qn with
+      | some _ => do let N ← fNat j "N"; pure (qnConfig nb N)
+      | none => cfgOf j nb
+    let s := startRange c
+    -- QN: the m = 0 matrix
+    let stiff0 ← match qn with
+      | none => pure none
+      | some e => do
+        let es ← strOf e
+        let el ← if es == "kinetic" then pure Electrons.kinetic else do
+          let chi ← fInt j "chi"; pure (Electrons.adiabatic chi)
+        pure (some (qnStiffness0 el asm s, qnStiffness0 el asa s))
+    out := out ++ [("refuses", toJson (refuses c cnull)), ("start_range", jNat s), ("n_unknowns", jNat (nUnknowns c))]
+    match stiff0 with
+    | some (none, _) => pure (obj (out ++ [("chi_refused", toJson true)]))
+    | _ =>
+    let nodes ← fRatList j "nodes"
+    let V := memo2 nodes.length nb (fun i jj => (unitSplineVal t nk d jj (nodes.getD i 0) false).getD 0)
+    let queries ← fList pure j "queries"
+    let mut qs : Array Json := #[]
+    for qj in queries do
+      let I ← fNat qj "I"
+      let n := modeSize c I
+      let cr := coeffRange c I
+      let (M, Ma) : (ℕ → ℕ → Rat) × (ℕ → ℕ → Rat) := match stiff0 with
+        | some (some s0, some s0a) =>
+            (qnModeMatrix s0 asm c I,
+             -- Σ|terms| of the mode matrix: |stiffness| + m²|k2|  (for m = 0 the χ-selected one)
+             if m2Int c.N I = 0 then s0a
+             else fun a b => sliceSq (fun a b => stiffnessMatrix asa s a b + m2 c.N I * sliceSq asa.k2 s a b) (stiffRange c I).1 a b)
+        | _ => (modeMatrix asm c I,
+             fun a b => sliceSq (fun a b => stiffnessMatrix asa s a b + m2 c.N I * sliceSq asa.k2 s a b) (stiffRange c I).1 a b)
+      let xhat ← fRatList qj "xhat"          -- all nb coefficients recovered from the returned phi slice
+      let phi ← fRatList qj "phi"            -- the returned phi slice (values at the nodes)
+      let xf := fn1 xhat
+      let x : ℕ → Rat := fun a => xf (cr.1 + a)
+      let (b, bs) ← match (qj.getObjVal? "rho_c").toOption with
+        | some rc => do
+          let rcl ← ratList rc
+          let rho ← fRatList qj "rho"
+          let rcf := fn1 rcl
+          let interp := (List.range nodes.length).map (fun i => evalAt nb V rcf i - rho.getD i 0)
+          if interp.any (· != 0) then throw "interpolation contract M c = u violated by the supplied rho coefficients"
+          pure (modeRhs asm c I rcf, modeRhs asa c I (fun jj => |rcf jj|))
+        | none => do
+          let ra ← rat2 (← field qj "rho_at")
+          pure (modeRhsFunc Q P (tab2 ra) c I, modeRhsFunc Qa Pa (abs2 (tab2 ra)) c I)
+      let evalres := (List.range nodes.length).map (fun i => evalAt nb V xf i - phi.getD i 0)
+      let res : ℕ → Rat := fun a => matVec n M x a - b a
+      let sc : ℕ → Rat := fun a => matVec n Ma (fun jj => |x jj|) a + bs a
+      let outside := (List.range nb).filter (fun p => !(cr.1 ≤ p ∧ p < cr.2))
+      qs := qs.push (obj [("I", jNat I), ("size", jNat n), ("coeff_range", jPair cr), ("stiff_range", jPair (stiffRange c I)),
+        ("m2", jInt (m2Int c.N I)),
+        ("matrix", jMat n n M), ("rhs", jVec n b), ("residual", jVec n res), ("scale", jVec n sc),
+        ("eval_residual", jRats evalres), ("outside", jList (fun p => jRat (xf p)) outside),
+        ("after_buffer", jVec nb (coeffsAfter (fun _ => 99) nb cr x))])
+    pure (obj (out ++ [("queries", Json.arr qs)]))
+
 def handle (j : Json) : R Json := do
   let op ← fStr j "op"
   match op with
   | "density" => handleDensity j
+  | "slices" => handleSlices j
+  | "solver" => handleSolver j
   | _ => throw s!"unknown op {op}"
 
 def main : IO Unit := serve handle
